@@ -41,8 +41,11 @@ class AdmittanceMixin(Quantity, ImmittanceMixin):
 
         x = expr(x)
         if x.is_constant:
-            from .impedance import impedance
-            ret = impedance(x.expr / self.expr)
+            # Keep the domain of self: the symbol alone does not say
+            # whether omega (or f) is a Fourier variable or the frequency
+            # of a frequency response.
+            ret = self._class_by_quantity('impedance')(
+                x.expr / self.expr, **self.assumptions)
             ret.units = x.units / self.units
             return ret
         return super(AdmittanceMixin, self).__rtruediv__(x)
